@@ -284,6 +284,11 @@ def run(ctx) -> Result:
         s = vtime.run(lambda loop, r=rng: ill_behaved(r), budget=200_000)
         check_session(s, model, res, f"ill-{seed}-{i}")
     run_cancellation(model, res, tier)
+    # Redis broker: sessions on the real RedisMessageBroker/_RedisConsumer (in-process fake server) vs the Lean model
+    # Redis.R, and this property's clauses on what the implementation did
+    import redisrun
+    res.merge(redisrun.part(ctx, "C01", ['mixed', 'mixed', 'ttl', 'fifo'], crash=0, race=0))
+    res.assumptions = list(getattr(res, "assumptions", []) or []) + redisrun.ASSUMPTIONS
     return res
 
 
